@@ -1,6 +1,6 @@
 (* Props_C07_canon — property theorems of the proof agent owning this topic: only Theorem ... exact ... Qed. Print Assumptions. *)
 From FoxBase Require Import Bytes.
-From FoxRoute Require Import Node Tree WFDef Canon Canon2.
+From FoxRoute Require Import Node Tree WFDef TreeMap Canon Canon2.
 From Coq Require Import Sorting.Permutation.
 
 (* the executable checker decides the canonical-form predicate *)
@@ -65,6 +65,25 @@ Theorem C07_WF_txn_unique : forall ta tb : txn,
   Permutation (skipn 4 (t_roots ta)) (skipn 4 (t_roots tb)).
 Proof. exact WF_txn_unique. Qed.
 Print Assumptions C07_WF_txn_unique.
+
+(* with the preservation theorems of TreeMap.v: every reachable state is canonical, and the trees
+   depend only on the final registered set *)
+Theorem C07_insert_canonical : forall t m ri t',
+  WF_txn t -> valid_rinfo ri -> insert t m ri = ROk t' -> CanonRoots (t_roots t').
+Proof. exact insert_canonical. Qed.
+Print Assumptions C07_insert_canonical.
+
+Theorem C07_reachable_canonical : forall t, CReach t -> CanonRoots (t_roots t).
+Proof. exact CReach_canonical. Qed.
+Print Assumptions C07_reachable_canonical.
+
+Theorem C07_shape_history_independent : forall ta tb : txn,
+  CReach ta -> CReach tb ->
+  (forall x, In x (routes_of_txn ta) <-> In x (routes_of_txn tb)) ->
+  firstn 4 (t_roots ta) = firstn 4 (t_roots tb) /\
+  Permutation (skipn 4 (t_roots ta)) (skipn 4 (t_roots tb)).
+Proof. exact shape_history_independent. Qed.
+Print Assumptions C07_shape_history_independent.
 
 (* non-vacuity: two different histories (one with deletes and a re-insert) reach canonical,
    equal trees; the custom roots differ in order only *)
